@@ -238,7 +238,7 @@ func runC01(tier string, seed int64, outdir string, replay string) error {
 		c01Emit(w, cs, o)
 	}
 	r := rand.New(rand.NewSource(seed))
-	n := 1500
+	n := 1300
 	if tier == "thorough" {
 		n = 12000
 	}
